@@ -6,7 +6,9 @@
 //	   reader that returns short reads, consumed with chunked reads until EOF;
 //	B  cfg.Transform Write/Read (B64 with every shift, DNS with domain lists);
 //	C  the full send and receive path: c2.writePacket / c2.readPacket over an in-memory
-//	   buffered conn whose Read returns chunks.
+//	   buffered conn whose Read returns chunks;
+//	D  histories on that path: good round trips mixed with faulty receives (cut / damaged / empty
+//	   streams) in one process - the two functions share a pool of buffers.
 //
 // Oracle (Go side): exact equality after the round trip.  Model (Coq side): the wire bytes of
 // stacks/transforms made of fully modelled elements (hex, base64, XOR-CFB, CBK, B64 shift, DNS)
@@ -931,6 +933,321 @@ func runFull(c fullCase) {
 	out.Count(class, fmt.Sprint(c), true)
 }
 
+// ---------------------------------------------------------------- level D: histories
+//
+// One process, one profile, a sequence of steps on the real writePacket/readPacket (which share the
+// package's pool of buffers): good round trips, faulty receives (the bytes of a good send, damaged
+// before they are read) and probes of the pool.  Oracle: every good packet, after any number of
+// faulty receives, is read back identical.  Model: the pool as state (Model/Wrappers.v hist_ok).
+
+type histStep struct {
+	Kind  string   `json:"kind"` // good | cut | reclen | garbage | garble | half | empty | probe
+	Arg   int      `json:"arg,omitempty"`
+	ID    int      `json:"id"`
+	Job   int      `json:"job"`
+	Flags uint64   `json:"flags"`
+	Tags  []uint32 `json:"tags,omitempty"`
+	Dev   uint64   `json:"device_seed"`
+	Pay   paySpec  `json:"payload"`
+}
+
+type histCase struct {
+	Level  string     `json:"level"`
+	Stack  []elem     `json:"stack"`
+	T      tspec      `json:"transform"`
+	ViaCfg bool       `json:"via_profile"`
+	Steps  []histStep `json:"steps"`
+	RChunk chunking   `json:"conn_read_chunks"`
+}
+
+func (h histStep) full(c histCase) fullCase {
+	return fullCase{Stack: c.Stack, T: c.T, ID: h.ID, Job: h.Job, Flags: h.Flags, Tags: h.Tags, Dev: h.Dev, Pay: h.Pay}
+}
+
+// buildProfile returns the wrapper and transform, directly or through cfg.Pack(...).Build().Next().
+func buildProfile(ws []elem, ts tspec, viaCfg bool) (w cfg.Wrapper, t cfg.Transform, err error) {
+	if viaCfg {
+		var s []cfg.Setting
+		if x := ts.setting(); x != nil {
+			s = append(s, x)
+		}
+		for _, e := range ws {
+			s = append(s, e.setting())
+		}
+		var p cfg.Profile
+		if p, err = cfg.Pack(s...).Build(); err != nil {
+			return
+		}
+		if p != nil {
+			_, w, t = p.Next()
+		}
+		return
+	}
+	if w, err = buildStack(ws, false); err != nil {
+		return
+	}
+	return w, ts.transform(), nil
+}
+
+// lastDNSRecordLen returns the offset of the 16-bit length field of the last data record of a DNS
+// framed wire, or -1.
+func lastDNSRecordLen(w []byte) int {
+	o, last := 0, -1
+	for _, n := range transform.VerifC07PacketLens(w) {
+		p := w[o : o+n]
+		s := 12
+		for s < len(p) && p[s] != 0 {
+			s += int(p[s]) + 1
+		}
+		s += 5
+		if transform.VerifC07DNSServer {
+			s += 16
+		}
+		for s+12 <= len(p) {
+			last = o + s + 10
+			s += 12 + (int(p[s+10])<<8 | int(p[s+11]))
+		}
+		o += n
+	}
+	return last
+}
+
+// damage turns the bytes of a good send into a faulty input.
+func damage(kind string, arg int, w []byte, dns bool) []byte {
+	b := append([]byte(nil), w...)
+	switch kind {
+	case "empty":
+		return nil
+	case "cut": // the stream ends early (connection cut, read timeout)
+		k := 1 + arg%300
+		if k >= len(b) {
+			k = len(b) / 2
+		}
+		return b[:len(b)-k]
+	case "half":
+		return b[:len(b)/2]
+	case "reclen": // DNS: the last record announces more bytes than follow
+		if i := -1; dns {
+			if i = lastDNSRecordLen(b); i >= 0 && i+1 < len(b) {
+				v := (int(b[i])<<8 | int(b[i+1])) + 7
+				b[i], b[i+1] = byte(v>>8), byte(v)
+				return b
+			}
+		}
+		fallthrough
+	case "garble": // eight bytes in the last third become 0xFF (bad hex / base64, broken zlib stream, bad record header)
+		i := len(b)*2/3 + arg%(len(b)/4+1)
+		for j := i; j < i+8 && j < len(b); j++ {
+			b[j] = 0xFF
+		}
+		return b
+	case "garbage": // nothing but bytes that are neither hex nor base64 nor a DNS header
+		for j := range b {
+			b[j] = "!#$%&"[(j+arg)%5]
+		}
+		return b
+	}
+	return b
+}
+
+func readStage(err error) int {
+	switch {
+	case err == nil:
+		return 0
+	case strings.Contains(err.Error(), "read from stream"):
+		return 1
+	case strings.Contains(err.Error(), "read from cache"):
+		return 2
+	}
+	return 3
+}
+
+// panics seen inside faulty receives (observations for C04), by stack kinds and message
+var panics = map[string]int{}
+
+func runHist(c histCase) {
+	c.Level = "history"
+	name := stackName(c.Stack) + "/" + c.T.name()
+	class := fmt.Sprintf("history-d%d-%s", len(c.Stack), c.T.name())
+	var (
+		terms         []string
+		faults        []string
+		failed, model = false, true
+		lit           int
+	)
+	sc, ok := stackCoq(c.Stack, 4096)
+	if !ok {
+		model = false
+	}
+	w, t, err := buildProfile(c.Stack, c.T, c.ViaCfg)
+	if err != nil {
+		out.Fail(fmt.Sprintf("history %s: building the profile failed: %v", name, err), "history-build:"+stackKinds(c.Stack)+"/"+c.T.name(), c)
+		return
+	}
+	c2.VerifC07PoolProbe(8, true) // every history starts from a pool of empty buffers
+	fail := func(what, key string) {
+		if !failed {
+			failed = true
+			out.Fail(what, key, c)
+		}
+	}
+	for si, h := range c.Steps {
+		if h.Kind == "probe" {
+			sz := c2.VerifC07PoolProbe(4, false)
+			z := make([]int64, len(sz))
+			for i, v := range sz {
+				z[i] = int64(v)
+			}
+			terms = append(terms, "HProbe "+vh.ZList64(z))
+			continue
+		}
+		var (
+			f     = h.full(c)
+			want  = f.packet()
+			plain []byte
+			conn  = &memConn{next: c.RChunk.iter()}
+			got   *com.Packet
+			stage = "marshal"
+			e     error
+		)
+		func() {
+			defer func() {
+				if x := recover(); x != nil {
+					e = fmt.Errorf("panic: %v", x)
+				}
+			}()
+			var pb bytes.Buffer
+			if e = f.packet().Marshal(&pb); e != nil {
+				return
+			}
+			plain = pb.Bytes()
+			stage = "writePacket"
+			if e = c2.VerifC07WritePacket(conn, w, t, f.packet()); e != nil {
+				return
+			}
+			if h.Kind != "good" {
+				conn.buf = damage(h.Kind, h.Arg, conn.buf, c.T.Kind == "dns")
+				lit += len(conn.buf)
+				wire := append([]byte(nil), conn.buf...)
+				// a run-time panic inside the faulty receive (e.g. CBK.Read returning a count larger than the
+				// buffer after a damaged count byte) is a robustness matter (property C04), recorded as an
+				// observation; for C07 it is one more way for a receive to fail
+				var re error
+				func() {
+					defer func() {
+						if x := recover(); x != nil {
+							re = fmt.Errorf("panic: %v", x)
+							out.Count("observation-panic-in-faulty-receive", fmt.Sprintf("%s|%v", name, x), true)
+							panics[fmt.Sprintf("%s: %v", stackKinds(c.Stack), x)]++
+						}
+					}()
+					_, re = c2.VerifC07ReadPacket(conn, w, t)
+				}()
+				faults = append(faults, h.Kind)
+				terms = append(terms, fmt.Sprintf("HBad %s %d", vh.Bytes(wire), readStage(re)))
+				return
+			}
+			stage = "readPacket"
+			got, e = c2.VerifC07ReadPacket(conn, w, t)
+		}()
+		if h.Kind != "good" {
+			if e != nil { // the send that was to be damaged failed: not a step
+				fail(fmt.Sprintf("history %s: step %d: %s failed: %v", name, si, stage, e), failKey("history-send:"+stackKinds(c.Stack)+"/"+c.T.name(), c.Stack, e))
+			}
+			continue
+		}
+		same := e == nil && got != nil && got.ID == want.ID && got.Job == want.Job && got.Flags == want.Flags && got.Device == want.Device &&
+			bytes.Equal(got.Payload(), want.Payload()) && len(got.Tags) == len(want.Tags)
+		if same {
+			for i := range want.Tags {
+				same = same && got.Tags[i] == want.Tags[i]
+			}
+		}
+		if !same {
+			key := "history-good-after-faults:" + stackKinds(c.Stack) + "/" + c.T.name()
+			if len(faults) == 0 {
+				key = "history-good:" + stackKinds(c.Stack) + "/" + c.T.name()
+			}
+			what := "the packet read differs from the packet written"
+			if e != nil {
+				what = fmt.Sprintf("%s failed: %v", stage, e)
+			}
+			fail(fmt.Sprintf("history %s: step %d, after %d faulty receive(s) %v: a good packet did not round-trip: %s", name, si, len(faults), faults, what),
+				failKey(key, c.Stack, e))
+		}
+		pc := litPay(plain).coq()
+		if pb := h.Pay.bytes(); h.Pay.Kind >= 0 && len(pb) > 0 && bytes.HasSuffix(plain, pb) {
+			pc = "(PCat " + litPay(plain[:len(plain)-len(pb)]).coq() + " " + h.Pay.coq() + ")"
+		}
+		terms = append(terms, fmt.Sprintf("HGood %s %s", pc, vh.B(same)))
+	}
+	sz := c2.VerifC07PoolProbe(8, true)
+	z := make([]int64, len(sz))
+	for i, v := range sz {
+		z[i] = int64(v)
+	}
+	terms = append(terms, "HProbe "+vh.ZList64(z))
+	if model && lit <= 9000 {
+		out.Add(fmt.Sprintf("CHist %s %s %s", sc, c.T.coq(), vh.List(terms)), class+"-model", true, c)
+		return
+	}
+	out.Count(class, fmt.Sprint(c), true)
+}
+
+// runTrRead: Transform.Read alone on a damaged input: the bytes it has written when it returns.
+func runTrRead(ts tspec, pay paySpec, kind string, arg int) {
+	t := ts.transform()
+	var w, o bytes.Buffer
+	func() {
+		defer func() { recover() }()
+		t.Write(append([]byte(nil), pay.bytes()...), &w)
+	}()
+	if w.Len() == 0 {
+		return
+	}
+	in := damage(kind, arg, w.Bytes(), ts.Kind == "dns")
+	var err error
+	func() {
+		defer func() {
+			if x := recover(); x != nil {
+				err = fmt.Errorf("panic: %v", x)
+			}
+		}()
+		err = t.Read(append([]byte(nil), in...), &o)
+	}()
+	desc := map[string]interface{}{"level": "transform-read", "transform": ts, "payload": pay, "damage": kind, "arg": arg}
+	out.Add(fmt.Sprintf("CTrRead %s %s %s %s", ts.coq(), vh.Bytes(in), vh.Bytes(o.Bytes()), vh.B(err == nil)), "transform-read-damaged-model", true, desc)
+}
+
+var faultKinds = []string{"cut", "cut", "reclen", "garbage", "garble", "half", "empty"}
+
+func randHist(r *vh.Rand, ws []elem, t tspec, probeEach bool) histCase {
+	c := histCase{Stack: ws, T: t, ViaCfg: r.Intn(4) == 0, RChunk: randChunk(r, maxBlock(ws))}
+	if c.ViaCfg && len(ws) == 0 && t.Kind == "none" {
+		c.ViaCfg = false
+	}
+	step := func(kind string, n int) histStep {
+		f := randFull(r, ws, t, n)
+		return histStep{Kind: kind, Arg: r.Intn(1 << 16), ID: f.ID, Job: f.Job, Flags: f.Flags, Tags: f.Tags, Dev: f.Dev, Pay: f.Pay}
+	}
+	good := func() { c.Steps = append(c.Steps, step("good", []int{0, 1, 40, 300, 700}[r.Intn(5)])) }
+	good()
+	for i, n := 0, 1+r.Intn(3); i < n; i++ {
+		for j, m := 0, 1+r.Intn(2); j < m; j++ {
+			// the damaged send carries more than two DNS records, so that a cut stream has complete ones
+			c.Steps = append(c.Steps, step(faultKinds[r.Intn(len(faultKinds))], []int{300, 600, 700}[r.Intn(3)]))
+			if probeEach {
+				c.Steps = append(c.Steps, histStep{Kind: "probe"})
+			}
+		}
+		good()
+		if r.Bool() {
+			good()
+		}
+	}
+	return c
+}
+
 // ---------------------------------------------------------------- CBK block functions
 
 func runBlock(k [5]byte, index byte, blk []byte) {
@@ -1357,6 +1674,77 @@ func main() {
 			runFull(randFull(r, []elem{randElem(r, []string{k})}, t, 2049))
 		}
 	}
+	// ---- 7. histories: good round trips mixed with faulty receives in one process (the buffer pool is shared state)
+	{
+		goodCBK := func(e elem) elem {
+			for e.Kind == "cbk" && cbkConsts(e.cbkKey()).anyBad {
+				e = randElem(r, []string{"cbk"})
+			}
+			return e
+		}
+		tset := []tspec{{Kind: "none"}, {Kind: "b64"}, {Kind: "b64", Shift: 77}, {Kind: "dns", Domains: []string{"example.com"}},
+			{Kind: "dns"}, {Kind: "dns", Domains: []string{"a..b", strings.Repeat("x", 70) + ".org."}}}
+		// the regression history of the pool: one DNS stream cut 100 bytes before its end, then traffic
+		for _, ws := range [][]elem{nil, {{Kind: "zlib"}}, {{Kind: "hex"}}} {
+			h := randHist(r, ws, tset[3], false)
+			h.ViaCfg = false
+			h.Steps = []histStep{h.Steps[0], h.Steps[0], h.Steps[0]}
+			h.Steps[1].Kind, h.Steps[1].Arg, h.Steps[1].Pay = "cut", 99, randPay(r, 700)
+			h.Steps[2].Pay = randPay(r, 0)
+			runHist(h)
+		}
+		rounds := 1
+		if thorough {
+			rounds = 12
+		}
+		for k := 0; k < rounds; k++ {
+			for ti, t := range tset {
+				// the empty stack, one element of every kind, random stacks of depth 2..3
+				stacks := [][]elem{nil}
+				for _, kind := range allKinds {
+					stacks = append(stacks, []elem{goodCBK(randElem(r, []string{kind}))})
+				}
+				for i := 0; i < 6; i++ {
+					kinds := allKinds
+					if i%2 == 0 {
+						kinds = modelKinds
+					}
+					ws := make([]elem, 2+r.Intn(2))
+					for j := range ws {
+						ws[j] = goodCBK(randElem(r, kinds))
+						if ws[j].Kind == "xor" && len(ws[j].Key) > 255 {
+							ws[j].Key = ws[j].Key[:255]
+						}
+					}
+					stacks = append(stacks, ws)
+				}
+				for si, ws := range stacks {
+					if len(ws) == 0 && t.Kind == "none" {
+						continue // no wrapper, no transform: the pool is not used
+					}
+					for i := range ws {
+						if ws[i].Kind == "xor" && len(ws[i].Key) > 255 {
+							ws[i].Key = ws[i].Key[:255]
+						}
+					}
+					runHist(randHist(r, ws, t, (si+ti+k)%2 == 0))
+				}
+			}
+		}
+		// Transform.Read alone on damaged input: what it has written when it returns
+		nt := 8
+		if thorough {
+			nt = 100
+		}
+		for _, t := range tset[1:] {
+			for i := 0; i < nt; i++ {
+				runTrRead(t, randPay(r, []int{5, 256, 257, 600, 700, 2049, 2300}[r.Intn(7)]), faultKinds[r.Intn(len(faultKinds))], r.Intn(1<<16))
+			}
+		}
+	}
+	if len(panics) > 0 {
+		out.Extra("panics_in_faulty_receives_C04", panics)
+	}
 	out.Extra("dns_server_role", transform.VerifC07DNSServer)
 	// how common the recorded CBK key-schedule defect is: keys (A,B,C,D) for which computing the
 	// constants of some block counter 0..30 panics (integer divide by zero in blockIndex)
@@ -1417,6 +1805,11 @@ func replay(path string) {
 		var c fullCase
 		if err = json.Unmarshal(f.Input, &c); err == nil {
 			runFull(c)
+		}
+	case "history":
+		var c histCase
+		if err = json.Unmarshal(f.Input, &c); err == nil {
+			runHist(c)
 		}
 	default:
 		err = errors.New("unknown level " + l.Level)
